@@ -343,7 +343,10 @@ def check_case(case: dict[str, Any], ctx: Any = None) -> list[str]:
 def _with_constraint(gname: str, ctext: str) -> Any:
     from fandango import Fandango
 
-    text = S.render({"rules": GRAMMARS[gname]["rules"], "mode": "text", "constraints": [ctext]})
+    # the spec's own python code defines the names the in-line quantifiers use for their variables: as in a Python
+    # comprehension, the bound variable hides the module-level name
+    text = S.render({"rules": GRAMMARS[gname]["rules"], "mode": "text", "constraints": [ctext],
+                     "code": "v0 = '5'\nv1 = 'a'\nv2 = '10'\nv3 = '0'\n"})
     return Fandango(text, use_stdlib=False, use_cache=False)
 
 
